@@ -1,5 +1,5 @@
 SPECIFICATION Spec
-CONSTANTS MaxV = 9
+CONSTANTS MaxV = 8
   Lens = {2, 3, 4, 5}
   LongV = 12
   LongLens = {12}
